@@ -21,14 +21,15 @@ import random
 
 from common import MachineryFailure
 
-ALL_VARIANTS = ["in_base", "in_base_arr", "convert_to_base", "gbe", "to_gbe", "in_sys", "convert_sys", "gbe_sys", "default", "default_conv", "sysobj"]
+ALL_VARIANTS = ["in_base", "in_base_arr", "convert_to_base", "gbe", "to_gbe", "in_sys", "convert_sys", "gbe_sys", "default", "default_conv", "sysobj", "in_base_mod", "convert_mod", "gbe_mod"]
+VALUE_VARIANTS = ["in_base", "in_base_arr", "convert_to_base", "to_gbe", "in_sys", "convert_sys", "default", "default_conv", "sysobj", "in_base_mod", "convert_mod"]
 
 
 def _tla_set(xs):
     return "{" + ", ".join(json.dumps(x) if isinstance(x, str) else str(x) for x in xs) + "}"
 
 
-def _cfg(ck, name, family, prefixes, variants, comp_stride, ncand, kilo, decl_stride):
+def _cfg(ck, name, family, prefixes, variants, comp_stride, ncand, kilo, decl_stride, vcs=("c128",)):
     text = (
         "CONSTANTS\n"
         f'  Family = "{family}"\n'
@@ -38,6 +39,7 @@ def _cfg(ck, name, family, prefixes, variants, comp_stride, ncand, kilo, decl_st
         f"  NCand = {ncand}\n"
         f"  KiloPrefix = {kilo}\n"
         f"  DeclStride = {decl_stride}\n"
+        f"  VCSet = {_tla_set(list(vcs))}\n"
         "INIT Init\nNEXT Next\nINVARIANT Export\nCHECK_DEADLOCK FALSE\n"
     )
     open(ck.spec + f"/{name}.cfg", "w").write(text)
@@ -67,6 +69,8 @@ def _norm_obs(o):
     o.setdefault("made", {"k": "ok", "exc": "", "registered": True})
     for k in ("backexc",):
         o.pop(k, None)
+    o.setdefault("uoff", False)
+    o.setdefault("lab", {"scale": [1, 1], "off": True, "dim": True, "back": True})
     o["gbe"] = {"k": o["gbe"]["k"], "x": o["gbe"].get("x", []), "coefr": o["gbe"].get("coefr", [1, 1])}
     o["twice"] = {"k": o["twice"]["k"], "x": o["twice"].get("x", []), "coefr": o["twice"].get("coefr", [1, 1]), "same": bool(o["twice"].get("same", True))}
     return o
@@ -95,12 +99,12 @@ def _validate(ck, tab, data_path, recs, label):
             rec = part[r["i"] - 1]
             o = rec["o"]
             key = {"clause": r["clause"], "route": r["route"], "as_transcribed": bool(r["astranscribed"])}
-            detail = {"system": _sys_name(tab, rec), "unit": _unit_name(tab, rec["x"]), "var": rec["var"], "k": o["k"], "exc": o.get("exc", ""),
+            detail = {"system": _sys_name(tab, rec), "unit": _unit_name(tab, rec["x"]), "var": rec["var"], "vc": rec.get("vc", "f64"), "label": o.get("lab"), "k": o["k"], "exc": o.get("exc", ""),
                       "result": _unit_name(tab, o["x"]), "coef_pow": [o.get("coefr"), o.get("cpow")], "made": o.get("made"), "unknown": o.get("unk", []), "twice": {"k": o["twice"]["k"], "unit": _unit_name(tab, o["twice"]["x"]), "same": o["twice"]["same"]},
                       "gbe": {"k": o["gbe"]["k"], "unit": _unit_name(tab, o["gbe"]["x"])}, "back": o["back"], "si": o["si"]}
             sk = f"{label}/{r['clause']}/{r['route']}/{'as-transcribed' if r['astranscribed'] else 'not-transcribed'}"
-            example = f"{detail['system']}: {detail['unit']} [{detail['var']}] -> {detail['result'] if o['k'] == 'ok' else o.get('exc')}"
-            acts.append(("pfail", key, detail, {k: rec[k] for k in ("sys", "base", "bcoef", "decl", "style", "form", "reg", "x", "var")} | {"kind": "step"}, sk, example))
+            example = f"{detail['system']}: {detail['unit']} [{detail['var']}, {detail['vc']}] -> {detail['result'] if o['k'] == 'ok' else o.get('exc')}"
+            acts.append(("pfail", key, detail, {k: rec[k] for k in ("sys", "base", "bcoef", "decl", "style", "form", "reg", "x", "var", "vc")} | {"kind": "step"}, sk, example))
     return acts
 
 
@@ -128,17 +132,18 @@ def _replay_steps(ck, tab, data_path, cases, label):
         c.setdefault("style", "str" if c["sys"] == 0 else "")
         c.setdefault("form", "kw" if c["sys"] == 0 else "")
         c.setdefault("reg", 0)
+        c.setdefault("vc", "f64")
     SP = ("base", "bcoef", "decl", "style", "form", "reg")
-    obs = ck.pmap("impl_c10", "observe", [{"sys": c["sys"], "spec": {k: c[k] for k in SP}, "x": c["x"], "var": c["var"]} for c in cases], common=tab)
+    obs = ck.pmap("impl_c10", "observe", [{"sys": c["sys"], "spec": {k: c[k] for k in SP}, "x": c["x"], "var": c["var"], "vc": c["vc"]} for c in cases], common=tab)
     recs = []
     for c, o in zip(cases, obs):
-        recs.append({k: c[k] for k in ("sys",) + SP + ("x", "var")} | {"o": _norm_obs(o)})
+        recs.append({k: c[k] for k in ("sys",) + SP + ("x", "var", "vc")} | {"o": _norm_obs(o)})
     return recs, _validate(ck, tab, data_path, recs, label)
 
 
 def _family(ck, tab, data_path, family, **kw):
     """one family: TLC case table -> replay -> TLC trace validation; thread-safe (no shared state is written)"""
-    cfg = _cfg(ck, "MC_C10_" + family, family, kw.get("prefixes", [8]), kw.get("variants", ["in_base"]), kw.get("comp_stride", 4), kw.get("ncand", 1), kw["kilo"], kw.get("decl_stride", 8))
+    cfg = _cfg(ck, "MC_C10_" + family, family, kw.get("prefixes", [8]), kw.get("variants", ["in_base"]), kw.get("comp_stride", 4), kw.get("ncand", 1), kw["kilo"], kw.get("decl_stride", 8), kw.get("vcs", ("c128",)))
     res = ck.tlc("MC_C10", cfg, env={"C10DATA": data_path}, workers=1, label=f"case table: {family}", required_actions=["Next"], timeout=3000)
     cases = res.by_tag("CASE")
     if len(cases) != res.distinct - 1:
@@ -171,7 +176,8 @@ def run(ck):
     ck.assumptions += [
         "a unit is a set of (prefix, atom, 12*exponent); dimensions are 12x exponent vectors over unyt.dimensions.base_dimensions",
         "numeric agreement (round trip, SI magnitude, second application) is reduced to booleans by the harness under rtol 1e-11; all other comparisons are TLC's",
-        "user-defined systems take atomic (optionally kilo-prefixed) non-offset base units from the table; offset units (degC, degF, lat, lon) as base units and re-declaring a base dimension after construction are not demanded",
+        "user-defined systems take atomic (optionally kilo-prefixed) base units from the table; a zero point only on the temperature base unit (degC, degF; offset family); lat / lon as angle base units and re-declaring a base dimension after construction are not demanded",
+        "value classes float32 / int32 / complex64 are compared under rtol 5e-6 and only while the converted magnitude stays within [1e-30, 1e30]; the label check (returned unit object vs its freshly resolved spelling) is reduced to a rational ratio and booleans by the harness, the clause is TLC's",
         "a violation is a known finding only when TLC classifies it as the EM counterpart route AND the observation is exactly what the transcription of today's code predicts",
     ]
     tab = ck.pmap("impl_c10", "tables", [{}], nproc=1)[0]
@@ -217,6 +223,11 @@ def run(ck):
         ("scaled", dict(variants=["rotate"], comp_stride=ck.q(4, 2), ncand=ck.q(1, 2), decl_stride=ck.q(8, 3), limit=ck.q(6000, 60000)), anyobs),
         # 6. validation of base units: one slot of a consistent tuple replaced by every candidate x value class x call form
         ("validate", dict(variants=["in_base"], ncand=ck.q(2, 4)), lambda r: True),
+        # 7. value class of the data (narrow float, integer, complex) x value-level entry point x atoms incl. every EM-dimension atom
+        ("values", dict(variants=VALUE_VARIANTS, comp_stride=ck.q(4, 1), vcs=ck.q(["c128", "c64", "i64", "f32"], ["c128", "c64", "i64", "i32", "f32"]),
+                        prefixes=ck.q([kilo], sorted({kilo, tab["prefixes"].index("m") + 1, 1})), limit=ck.q(10000, 120000)), anyobs),
+        # 8. user-defined systems whose temperature base unit has a zero point (degC, degF)
+        ("offset", dict(variants=["rotate"], comp_stride=ck.q(4, 2), ncand=1, prefixes=ck.q([kilo], sorted({kilo, tab["prefixes"].index("m") + 1})), limit=ck.q(6000, 60000)), anyobs),
     ]
     import c10_hist
 
